@@ -1,6 +1,6 @@
 (* pins for C08: statements of the property theorems as of the time of pinning *)
 From Coq Require Import NArith List Bool.
-From Blue Require Import Refs.Model Refs.ModelLock Refs.Spec Refs.ProofsCount Refs.ProofsTop Refs.ProofsLock.
+From Blue Require Import Refs.Model Refs.ModelLock Refs.Spec Refs.ProofsCount Refs.ProofsTop Refs.ProofsLock Refs.IngestFault.
 Import ListNotations.
 Open Scope N_scope.
 From Blue Require Import Refs.Props_C08.
@@ -16,3 +16,7 @@ Check C08_release_callback_under_table_lock_refines_atomic_release : forall evs,
 Check C08_needed_not_removed_with_release_callback : forall evs x, needed (fst (frun true lsys0 evs)) x -> In x (f_sst (s_fs (fst (frun true lsys0 evs)))).
 Check C08_needed_not_removed_refuted_without_lock_across_callback : exists evs x, needed (fst (frun false lsys0 evs)) x /\ ~ In x (f_sst (s_fs (fst (frun false lsys0 evs)))).
 Check C08_verifier_unlinks_verified_incarnation_refuted : exists evs, ~ pending_not_readded (run sys0 evs).
+Check C08_ingest_fault_listed_present : forall (ops : list iop) x, In x (i_live (fold_left istep ops i0)) -> In x (i_sst (fold_left istep ops i0)).
+Check C08_ingest_fault_nothing_removed : forall (ops : list iop) o x, In x (i_sst (fold_left istep ops i0)) -> In x (i_sst (fold_left istep (ops ++ [o]) i0)).
+Check C08_ingest_success_listed_and_present : forall x roll fault s s', ingest false x roll fault s = (s', true) -> In x (i_sst s') /\ In x (i_live s').
+Check C08_ingest_cleanup_on_error_refuted : J i0 /\ ~ J (fst (ingest true 7 true (Some 6%nat) i0)).
